@@ -51,7 +51,7 @@ Call(c, g, ms) ==
   /\ \A d \in DOMAIN calls : calls[d].g = g => calls[d].returned
   /\ calls' = c :> [g |-> g, msgs |-> ms, returned |-> FALSE, result |-> "none",
                     errs |-> <<>>, seq |-> Cardinality(DOMAIN calls) + 1,
-                    entered |-> FALSE, afterClose |-> closeState = "returned"] @@ calls
+                    entered |-> FALSE, left |-> FALSE, afterClose |-> closeState = "returned"] @@ calls
   /\ cpc' = c :> "called" @@ cpc
   /\ todo' = c :> {} @@ todo
   /\ waits' = c :> {} @@ waits
@@ -61,7 +61,7 @@ Call(c, g, ms) ==
                  writers, pw, batch>>
 
 ReturnWith(c, kind, errs, left) ==
-  /\ calls' = [calls EXCEPT ![c].returned = TRUE, ![c].result = kind, ![c].errs = errs]
+  /\ calls' = [calls EXCEPT ![c].returned = TRUE, ![c].result = kind, ![c].errs = errs, ![c].left = left]
   /\ cpc' = [cpc EXCEPT ![c] = "returned"]
   /\ wgroup' = IF left THEN wgroup - 1 ELSE wgroup
 
@@ -366,6 +366,7 @@ Next ==
         \/ (cfg.plan[c].cancellable /\ ReturnCancelled(c))
         \/ \E p \in 0 .. 3 : Balance(c, p)
         \/ \E k \in {"topic", "meta"} :
+              /\ cpc[c] \in {"entered", "balancing"} /\ Valid(c)
               /\ k = "meta" => (cfg.metaFails \/ TopicOf(c, Len(chosen[c]) + 1) \notin DOMAIN cfg.nparts)
               /\ BalanceFail(c, k)
         \/ \E tp \in todo[c] : NewPartitionWriter(c, tp) \/ WMBegin(c, tp)
